@@ -1,5 +1,7 @@
 import Oracle.J
 import Eru.Misc.Docker
+import Eru.Misc.Keys
+import Eru.Misc.Chunks
 /- Oracle for the "misc" group (C24, C27, C29, C31): runs the model on each case, compares
    with the implementation's output and evaluates the specification on that output. -/
 namespace Oracle.Misc
@@ -64,5 +66,105 @@ def handle (j : Json) : Json :=
     else
       verdict id false mj ["C31:crash"] "crash"
 end DockerO
+
+/-! ### C24 -/
+namespace NamesO
+open Eru.Misc.Names Eru.Misc.Keys
+
+structure W where
+  app : Str
+  entry : Str
+  node : Str
+  id : Str
+  sfx : Str
+
+def wOfJson (j : Json) : W :=
+  { app := (jstr (jget j "app")).toList, entry := (jstr (jget j "entry")).toList, node := (jstr (jget j "node")).toList,
+    id := (jstr (jget j "id")).toList, sfx := (jstr (jget j "sfx")).toList }
+
+def S (l : Str) : String := String.ofList l
+
+/-- the deploy key the store writes for a workload: the name is parsed back first -/
+def storedKey (w : W) : Option Str :=
+  match parseName (makeName w.app w.entry w.sfx) with
+  | some (a, e, _) => some (workloadKey deployRoot a e w.node w.id)
+  | none => none
+
+def insertCount (m : List (String × Int)) (k : String) : List (String × Int) :=
+  match m with
+  | [] => [(k, 1)]
+  | (k', v) :: r => if k' = k then (k', v + 1) :: r else (k', v) :: insertCount r k
+
+def sortCounts (m : List (String × Int)) : List (String × Int) := m.mergeSort (fun a b => a.1 ≤ b.1)
+
+def countsToJson (m : List (String × Int)) : Json := Json.mkObj ((sortCounts m).map fun (k, v) => (k, ji v))
+
+def handleWorld (j : Json) : Json :=
+  let id := jget j "id"
+  let redis := jstr (jget j "backend") == "redis"
+  let ws := (jarr (jget j "world")).map wOfJson
+  let impl := jget j "impl"
+  let stored : List (W × Str) := ws.filterMap fun w => (storedKey w).map fun k => (w, k)
+  let sel (pre : Str) (k : Str) : Bool := if redis then globMatch (pre ++ ['*']) k else hasPrefix pre k
+  let qs := jarr (jget j "queries")
+  let rs := jarr (jget impl "results")
+  let names : List Str := (ws.flatMap fun w => [w.app, w.entry, w.node]) ++
+    (qs.flatMap fun q => [(jstr (jget q "app")).toList, (jstr (jget q "entry")).toList, (jstr (jget q "node")).toList]).filter (· ≠ [])
+  let unclean := names.any fun n => !decide (CleanName n)
+  let globby := redis && names.any fun n => !decide (GlobFree n)
+  let sfx := if unclean then ":unclean" else if globby then ":glob" else ""
+  let step (acc : Bool × List Json × List String) (qr : Json × Json) : Bool × List Json × List String :=
+    let (q, r) := qr
+    let fa := (jstr (jget q "app")).toList
+    let fe := (jstr (jget q "entry")).toList
+    let fn := (jstr (jget q "node")).toList
+    if jstr (jget q "kind") == "list" then
+      let pre := listPrefix deployRoot fa fe fn
+      let modelIds := sortStrs ((stored.filter fun wk => sel pre wk.2).map fun wk => S wk.1.id)
+      let want := sortStrs ((ws.filter fun w => filterMatches fa fe fn w.app w.entry w.node).map fun w => S w.id)
+      let got := jstrs (jget r "ids")
+      let isErr := jhas r "err"
+      let viol := if isErr then ["C24:list:error" ++ sfx] else
+        (if got.any (fun i => !want.contains i) then ["C24:list:extra" ++ sfx] else []) ++
+        (if want.any (fun i => !got.contains i) then ["C24:list:missing" ++ sfx] else [])
+      (acc.1 && !isErr && got == modelIds, acc.2.1 ++ [Json.arr (modelIds.map Json.str).toArray], acc.2.2 ++ viol)
+    else
+      let pre := countPrefix deployRoot fa fe
+      let modelC := (stored.filter fun wk => sel pre wk.2).foldl (fun m wk => insertCount m (S (nodeOfKey wk.2))) []
+      let wantC := (ws.filter fun w => fa == w.app && fe == w.entry).foldl (fun m w => insertCount m (S w.node)) []
+      let gotC := sortCounts ((jobjList (jget r "counts")).map fun (k, v) => (k, jint v))
+      let isErr := jhas r "err"
+      let viol := if isErr then ["C24:count:error" ++ sfx] else if gotC == sortCounts wantC then [] else ["C24:count:wrong" ++ sfx]
+      (acc.1 && !isErr && gotC == sortCounts modelC, acc.2.1 ++ [countsToJson modelC], acc.2.2 ++ viol)
+  let (agree, model, viols) := (qs.zip rs).foldl step (true, [], [])
+  let agree := agree && qs.length == rs.length && (jarr (jget impl "add_errs")).isEmpty
+  verdict id agree (Json.arr model.toArray) viols.eraseDups
+    ("world:" ++ (if redis then "redis" else "etcd") ++ (if sfx == "" then ":clean" else sfx)) (ws.length < 2)
+
+def handle (j : Json) : Json :=
+  let id := jget j "id"
+  let impl := jget j "impl"
+  let tripleJson (o : Option (Str × Str × Str)) : Json := match o with
+    | some (a, e, i) => Json.mkObj [("app", S a), ("entry", S e), ("ident", S i)]
+    | none => Json.mkObj [("err", "invalid-name")]
+  let sameTriple (o : Option (Str × Str × Str)) : Bool := match o with
+    | some (a, e, i) => jhas impl "app" && jstr (jget impl "app") == S a && jstr (jget impl "entry") == S e && jstr (jget impl "ident") == S i
+    | none => jhas impl "err"
+  match jstr (jget j "op") with
+  | "parse" =>
+    let m := parseName (jstr (jget j "name")).toList
+    verdict id (sameTriple m) (tripleJson m) [] "parse"
+  | "roundtrip" =>
+    let w := wOfJson ((jarr (jget j "world")).headD Json.null)
+    let m := parseName (makeName w.app w.entry w.sfx)
+    let ok := sameTriple (some (w.app, w.entry, w.sfx))
+    let sfx := if decide (CleanName w.app) then "" else ":unclean"
+    verdict id (sameTriple m) (tripleJson m) (if ok then [] else ["C24:parse-back" ++ sfx]) ("roundtrip" ++ sfx)
+  | "join" =>
+    let m := pathJoin ((jstrs (jget j "elems")).map String.toList)
+    verdict id (jstr (jget impl "path") == S m) (Json.str (S m)) [] "join"
+  | "world" => handleWorld j
+  | _ => verdict id false Json.null [] "unknown-op"
+end NamesO
 
 end Oracle.Misc
